@@ -103,3 +103,17 @@ def d14_before_lock_negates_slack():
     now = int(time.time())
     lock = ts.make_timestamp_before_lock(now - 1000)
     return ts.run_auth_scripts([lock], {'timestamp': now + 500}) is True
+
+
+def d17_reset_plugins_skips():
+    ts = _ts()
+    from tapescript import functions as F
+    def p1(*a): pass
+    def p2(*a): pass
+    scope = 'verif_d17_scope'
+    F.add_plugin(scope, p1)
+    F.add_plugin(scope, p2)
+    F.reset_plugins(scope)
+    left = list(F._plugins.get(scope, []))
+    F._plugins.pop(scope, None)
+    return len(left) != 0
